@@ -96,6 +96,7 @@ class PGen(object):
         self.assets = bw.ASSETS[:rng.randint(1, 4)]
         self.mode = rng.choice(['zero', 'flat', 'prop'])
         self.n = 0
+        self.queue = []
 
     def adv(self):
         self.t = self.t + pd.Timedelta(self.rng.choice([
@@ -111,7 +112,12 @@ class PGen(object):
             clock = p.current_dt
             earlier = str(clock - pd.Timedelta(rng.choice([pd.Timedelta(microseconds=1), pd.Timedelta(days=1)])))
             k = rng.choice(['sub_back', 'sub_neg', 'wd_back', 'wd_neg', 'wd_over', 'txn_back', 'mark_neg', 'mark_back',
-                            'txn_behind_pos', 'txn_behind_pos', 'mark_behind_pos'])
+                            'txn_behind_pos', 'txn_behind_pos', 'mark_behind_pos', 'mark_repeat', 'mark_repeat'])
+            if k == 'mark_repeat':
+                stale = [(a, p.pos_handler.positions[a]) for a in held if p.pos_handler.positions[a].current_dt < clock]
+                if stale:
+                    a, pos_ = rng.choice(stale)
+                    return ['pf_mark', 'P', a, float(pos_.current_price), str(pos_.current_dt)]
             if k in ('txn_behind_pos', 'mark_behind_pos'):
                 cands = [(a, p.pos_handler.positions[a].current_dt) for a in held
                          if p.pos_handler.positions[a].current_dt > clock]
@@ -131,13 +137,26 @@ class PGen(object):
             if k == 'wd_neg':
                 return ['pf_wd', 'P', str(self.t), -amt]
             if k == 'wd_over':
-                return ['pf_wd', 'P', str(self.t), max(p.cash, 0.0) * rng.choice([1.0000001, 2.0]) + rng.choice([0.01, 1e3])]
+                return ['pf_wd', 'P', str(self.t), max(p.cash, 0.0) * rng.choice([1.0, 1.0, 1.0000001, 2.0]) + rng.choice([0.001, 0.0049, 0.0098, 0.01, 1e3])]
             if k == 'txn_back':
                 return ['pf_txn', 'P', earlier, rng.choice(self.assets), rng.choice([-7, 11]), bw.rand_price(rng), 0.0, 'bad']
             if k == 'mark_neg' and held:
                 return ['pf_mark', 'P', rng.choice(held), -bw.rand_price(rng), str(self.t)]
             if k == 'mark_back' and held:
                 return ['pf_mark', 'P', rng.choice(held), bw.rand_price(rng), earlier]
+        if self.queue:
+            return self.queue.pop(0)
+        if rng.random() < 0.06:
+            # fund the portfolio so that the next purchase leaves a residue of a fraction of a cent (either sign)
+            price = float(rng.randint(100, 9999)) / 100.0
+            q = rng.randint(1, 500)
+            comm = comm_for(rng, self.mode, price, q) if self.mode != 'prop' else round(price * q * 0.001, 6)
+            need = price * q + comm - p.cash + rng.choice([0.004, 0.001, 0.0049, -0.003, 0.0])
+            if need > 0:
+                a_ = rng.choice(self.assets)
+                self.n += 1
+                self.queue.append(['pf_txn', 'P', self.adv(), a_, q, price, comm, 'X%d' % self.n])
+                return ['pf_sub', 'P', self.adv(), need]
         r = rng.random()
         if r < 0.08:
             return ['pf_sub', 'P', self.adv(), bw.rand_amount(rng)]
@@ -250,7 +269,7 @@ def position_case(rng):
     return {'kind': 'position', 'fills': fills, 'marks': {str(k): v for k, v in marks.items()}}
 
 
-def run_position_case(case, acc):
+def run_position_case(case, acc, prop='C03'):
     from fractions import Fraction
     from qstrader.broker.portfolio.position import Position
     from qstrader.broker.transaction.transaction import Transaction
@@ -274,8 +293,11 @@ def run_position_case(case, acc):
         last = price
         m = case['marks'].get(str(i))
         if m is not None:
-            t = t + pd.Timedelta(minutes=1)
-            pos.update_current_price(m, t)
+            if i % 3 == 0:
+                pos.update_current_price(m)             # the timestamp is optional
+            else:
+                t = t + pd.Timedelta(minutes=1)
+                pos.update_current_price(m, t)
             last = m
         net = bq - sq
         mv = F(last) * net
@@ -289,9 +311,12 @@ def run_position_case(case, acc):
             unreal = Fraction(0)
         w = {'fill_index': i, 'fills_so_far': case['fills'][:i + 1]}
         if pos.net_quantity != net:
-            raise Violation('C03', 'position/quantity', 'Position.net_quantity %r after fills summing to %d' % (pos.net_quantity, net), w)
+            raise Violation(prop, 'position/quantity', 'Position.net_quantity %r after fills summing to %d' % (pos.net_quantity, net), w)
         if not close(pos.market_value, mv, abs(mv), rel=1e-12):
-            raise Violation('C03', 'position/market-value', 'market value %r, net %d x price %r' % (pos.market_value, net, last), w)
+            raise Violation(prop, 'position/market-value', 'market value %r, net %d x price %r' % (pos.market_value, net, last), w)
+        if prop != 'C03':
+            acc.count('%s:direct_position_checks' % prop)
+            continue
         if not close(pos.total_pnl, total, scale):
             raise Violation('C03', 'position/total-pnl', 'Position object (same object kept through flat) reports total P&L %r after '
                             'fill %d; market value - cost of fills - commissions = %r' % (pos.total_pnl, i, float(total)), w)
